@@ -109,8 +109,21 @@ pub fn emit(out: &mut Out, worker: &mut Worker, text: &str, rng: &mut Rng, thoro
     payload.push(' ');
     payload.push_str(&crate::out::join(&accepted));
     out.case(prop, id, &payload);
-    for l in ilines {
-        out.imp(id, "I", &l);
+    for l in &ilines {
+        out.imp(id, "I", l);
+    }
+    if prop == "C04" {
+        // position-only view, compared with the position the property prescribes (`Sp`)
+        for l in &ilines {
+            let f: Vec<&str> = l.split(' ').collect();
+            let v = match f.get(1) {
+                Some(&"acc") => format!("{} acc", f[0]),
+                Some(&"err") => format!("{} err {}", f[0], f.get(2).unwrap_or(&"?")),
+                Some(x) => format!("{} {}", f[0], x),
+                None => l.clone(),
+            };
+            out.imp(id, "Ip", &v);
+        }
     }
     match hfail {
         None => out.imp(id, "H", "ok"),
@@ -173,8 +186,8 @@ pub fn run_prop(a: &Args, prop: &str, pnum: u64) {
         }
         let mut rng = Rng::for_case(a.seed, pnum, case as u64 + 1);
         let cfg = GenCfg { precs: rng.chance(1, 4), ..GenCfg::default() };
-        let g = grammar::random_grammar(&mut rng, &cfg);
-        emit(&mut out, &mut worker, &g.render(), &mut rng, a.thorough, "random", prop);
+        let g = if case % 4 == 2 { grammar::layered_grammar(&mut rng) } else { grammar::random_grammar(&mut rng, &cfg) };
+        emit(&mut out, &mut worker, &g.render(), &mut rng, a.thorough, if case % 4 == 2 { "layered" } else { "random" }, prop);
     }
     out.finish(&a.out);
 }
